@@ -1763,7 +1763,10 @@ def main():
     ck.sample(dict(stream="B", key=P[3][0], expected="balanced ledger, output ends with |ende"))
     ck.sample(dict(stream="M", note="real event sequence between the two marker allocations == Own.run (Own.compile skeleton) with the tape as oracle, pointers renamed by creation order"))
     ck.finish(explanation=(
-        "Model re-synchronised with /repo after the repairs 6711de1 c2054d3 2f9971e bf84b8a 597753d 39a39c6. "
+        "Model re-synchronised with /repo after the repairs 6711de1 c2054d3 2f9971e bf84b8a 597753d 39a39c6 91b5d4a d296fb2 (no -O2 elision when another "
+        "argument of the call mentions the variable) 7366b9f (a variable left operand of Text concatenation is copied into a scope temporary before a right "
+        "operand that contains a call and can reach the variable; EUse2 stands for two operands read by unary operators, as stream M renders it — the same "
+        "rule for `gleich` applied directly to two non-primitive operands is not modelled). "
         "FULL: C05_balancedb_correct (the extracted checker that judges every real ledger decides `balanced`), C05_balanced_released_once, "
         "C05_actions_balanced_on_every_exit (soundness of the static ownership discipline for the code generator's actions on fallthrough, break, "
         "continue and return, all oracles/fuel), C05_runtime_fns_balanced + C05_concat_callers_balanced (free, deep copy, Text and list concatenations, "
